@@ -59,6 +59,9 @@ func c11Programs(thorough bool) []c11Program {
 		{Name: "create-insert", Files: tu, Args: []string{"CREATE TABLE `n.csv` (c1, c2); INSERT INTO n VALUES (1, 2);"}, Created: []string{"n.csv"}},
 		{Name: "update-create", Files: tu, Args: []string{"UPDATE t SET b = 'z'; CREATE TABLE `n.csv` (c1); INSERT INTO n VALUES (1);"}, Created: []string{"n.csv"}},
 		{Name: "create-2-tables", Files: tu, Args: []string{"CREATE TABLE `n.csv` (c1); CREATE TABLE `m.csv` (c1); INSERT INTO n VALUES (1); INSERT INTO m VALUES (2);"}, Created: []string{"n.csv", "m.csv"}},
+		// tables without records: the writers of a COMMIT look for a cancellation while they walk the records
+		{Name: "delete-all", Files: tu, Args: []string{"DELETE FROM t"}},
+		{Name: "delete-all-2-tables-create-empty", Files: tu, Args: []string{"DELETE FROM t; DELETE FROM u; CREATE TABLE `n.csv` (c1, c2);"}, Created: []string{"n.csv"}},
 		{Name: "out-nonempty", Files: tu, Args: []string{"-o", "out.csv", "SELECT * FROM t"}, ReadOnly: true, Created: []string{"out.csv"}},
 		{Name: "out-empty", Files: tu, Args: []string{"-o", "out.csv", "-f", "csv", "-N", "SELECT * FROM t WHERE a = 99"}, ReadOnly: true},
 		{Name: "out-empty-chdir", Files: map[string]string{"t.csv": t, "sub/t.csv": t, "sub/out.csv": "keep\n"}, Args: []string{"-o", "out.csv", "CHDIR 'sub'; SELECT * FROM t WHERE a = 99;"}, ReadOnly: true},
